@@ -145,7 +145,7 @@ def stylesheet(tree, o):
 
 def harness_case(cid, tree, o):
     c = {"id": cid, "xsl": stylesheet(tree, o), "xml": "<x/>", "omitMeta": o["setOmitMeta"], "escapeURLs": o["setEscapeURLs"]}
-    if o["setIndent"] != "none":
+    if o["setIndent"] >= 0:
         c["setIndent"] = o["setIndent"]
     if o["setEncoding"]:
         c["setEncoding"] = o["setEncoding"]
